@@ -128,6 +128,9 @@ pub fn run_case_after(case: &Case, before: Option<&Case>, hash_seed: u64, pool: 
                         if let Case::Dsp(_) = &case2 {
                             sg.extend(dsp::panic_sig());
                         }
+                        if let Case::Trn(_) = &case2 {
+                            sg.extend(trn::panic_sig());
+                        }
                         ctx.violate_sig(p, "panic", &loc_short, format!("panic at {loc_short}: {short}"), sg);
                     }
                     None => {
